@@ -117,11 +117,12 @@ Definition expected_sync_sites : list (string * sev) := [
 
 Definition is_return (e : sev) : bool := match e with Return _ => true | _ => false end.
 
-(* loads of the published tree: a direct Load, getRoot, or a call of another read entry point *)
+(* loads of the published tree: a direct Load, or a call of any function of the package from which
+   Router.tree.Load is reachable (GenSync.loaders, recomputed from the sources on every run) *)
 Definition is_load (e : sev) : bool :=
   match e with
   | Load => true
-  | Call f => String.eqb f "Router.getRoot" || String.eqb f "Router.Route"
+  | Call f => existsb (String.eqb f) GenSync.loaders
   | _ => false
   end.
 
